@@ -59,6 +59,8 @@ def evaluate(pid, mod, fdir, rep, tier, cfg):
     """Evaluate the property's rules on the program, and re-evaluate the obligations that fail on the equivalent programs
     obtained by inlining workspace helpers (depth 1, 2): an obligation is violated only if it fails on every form."""
     prog, stats = load(fdir)
+    for a, b in sorted(getattr(prog, 'renamed', {}).items()):
+        rep.note('function %s has the body shape of the pinned tree\'s %s, which no longer exists: treated as that function renamed' % (a, b))
     n0 = len(rep.obligations)
     run_rules(mod, prog, rep, tier, cfg)
     mine = rep.obligations[n0:]
